@@ -510,3 +510,109 @@ class TourProp:
 
 
 REGISTRY["C12"] = TourProp()
+
+
+# =========================================================================== C15 rotation bookkeeping
+import transitions as trans_mod  # noqa: E402
+
+C15_INVS = ["P_C15_nopanic", "P_C15_partition", "P_C15_inv", "P_C15_lookup", "P_C15_empty", "P_C15_model"]
+
+
+class TransProp:
+    def bounds(self, tier):
+        return (4, 4) if tier == "quick" else (4, 6)
+
+    def run(self, prop, tier, seed):
+        out = Outcome()
+        nveh, depth = self.bounds(tier)
+        I, veh, probe, cases = trans_mod.run_model(out, nveh, depth)
+        by_case = trans_mod.execute(I, veh, probe, cases)
+        d = common.cache_dir("transcases", tier)
+        chunks, index = trans_mod.build_traces(I, veh, cases, by_case, d)
+        viols = run_tlc_chunks("TraceTrans", C15_INVS, chunks, "TraceTrans", out, max_parallel=12, workers=1)
+        traces = {}
+        for ci, v in viols:
+            if ci not in traces:
+                traces[ci] = common.read_ndjson(chunks[ci])
+            ev = traces[ci][v["l"] - 1]
+            first, last, k = [x for x in index[ci] if x[0] <= v["l"] <= x[1]][0]
+            c = cases[k]
+            opname = ev.get("op", {}).get("op", "hist") if ev.get("stage") == "next" else "hist"
+            sig = "%s:%s" % (v["name"], opname)
+            payload = {"property": prop, "kind": "trans", "formula": v["name"], "signature": sig, "nveh": nveh,
+                       "case": {"hist": c["hist"], "next": [ev["op"]] if ev.get("stage") == "next" else [], "T": c["T"]},
+                       "observed": ev.get("obs"), "msg": ev.get("msg")}
+            detail = "hist=%s op=%s" % (json.dumps(c["hist"]), json.dumps(ev.get("op")))
+            out.findings.append(Finding(prop, v["name"], "case%d" % k, sig, detail, payload))
+        nevents = sum(len(v) for v in by_case.values())
+        for p in chunks:
+            os.remove(p)
+        out.traces += len(cases)
+        opc = {}
+        for c in cases:
+            for o in c["hist"][-1:] + c["next"]:
+                opc[o["op"]] = opc.get(o["op"], 0) + 1
+        out.coverage["model_states"] = len(cases)
+        out.coverage["executed_observations"] = nevents
+        out.coverage["executed_operations"] = opc
+        out.coverage["bounds"] = {"vehicles": nveh, "history_depth": depth, "alternative_tours_per_vehicle": 2, "max_cycles": 4}
+        out.coverage["exhaustive"] = True
+        missing = [o for o in ("update", "add_own", "remove", "add_end", "move", "three_opt") if not opc.get(o)]
+        if missing:
+            raise ToolError("vacuous C15 model run: operations never explored: %s" % missing)
+        # the transitions produced in the solve pipeline: caches, partition, optimisation never worsens
+        pinfo = pipeline.corpus(tier, seed, "release")
+        pv = run_tlc_chunks("TracePipe", ["P_C15_opt", "P_stage_caches_trans", "P_stage_caches_viol"], pinfo["chunks"],
+                            "TracePipe/C15", out)
+        by_chunk = {}
+        for m in pinfo["instances"]:
+            by_chunk.setdefault(m["chunk"], []).append(m)
+        for ci, v in pv:
+            m = [x for x in by_chunk[ci] if x["first"] <= v["l"] <= x["last"]][0]
+            inst = gen.gen_instance(pinfo["seed"], pinfo["index"][m["name"]])
+            payload = {"property": prop, "kind": "pipe", "formula": v["name"], "profile": "release",
+                       "signature": v["name"], "instance": inst, "input": gen.render(inst)}
+            out.findings.append(Finding(prop, v["name"], m["name"] + "/pipeline", v["name"], "pipeline", payload))
+        out.traces += len(pinfo["instances"])
+        cov = pipe_coverage([pinfo])
+        out.coverage["pipeline"] = {k: cov[k] for k in ("instances", "solved_ok", "transopt_changed_cycles",
+                                                        "outputs_with_2plus_cycles")}
+        out.samples.append({"history": cases[min(50, len(cases) - 1)]["hist"], "model_state": cases[min(50, len(cases) - 1)]["T"]})
+        out.assumptions = [
+            "exhaustive over all operation sequences up to the stated depth on the stated pool (4 vehicles x 2 alternative tours, "
+            "3 depots with asymmetric distances + overflow depot, tours with and without maintenance); every model state is replayed "
+            "by one shortest history and every operation enabled in it is executed once",
+            "the private empty-cycle list is observed by probing add_vehicle_to_own_cycle; the private lookup by get_successor_of",
+        ]
+        return out
+
+    def replay(self, prop, path):
+        with open(path) as f:
+            payload = json.load(f)
+        out = Outcome()
+        if payload.get("kind") == "pipe":
+            inst = payload["instance"]
+            info = pipeline.corpus("quick", 0, "release", instances=[inst])
+            pv = run_tlc_chunks("TracePipe", ["P_C15_opt", "P_stage_caches_trans", "P_stage_caches_viol"],
+                                info["chunks"], "TracePipe/C15", out)
+            for ci, v in pv:
+                out.findings.append(Finding(prop, v["name"], inst["name"], v["name"], "pipeline", payload))
+            return out
+        I, veh, probe = trans_mod.pool_instance()
+        veh = veh[:payload["nveh"]]
+        cases = [payload["case"]]
+        by_case = trans_mod.execute(I, veh, probe, cases)
+        d = os.path.join(common.WORK, "replay_trans_%d" % os.getpid())
+        os.makedirs(d, exist_ok=True)
+        chunks, index = trans_mod.build_traces(I, veh, cases, by_case, d)
+        viols = run_tlc_chunks("TraceTrans", C15_INVS, chunks, "TraceTrans", out, workers=1)
+        for ci, v in viols:
+            out.findings.append(Finding(prop, v["name"], "case0", payload["signature"], "", payload))
+        return out
+
+    def selftest(self, prop, tier, seed):
+        import selftest
+        return selftest.trans(prop, tier, seed)
+
+
+REGISTRY["C15"] = TransProp()
